@@ -72,7 +72,7 @@ CHECKS = {
             True),
     "C13": ("venum", "exploration", "complete enumeration of (backend, vector type, data-movement operation) x every index x one-hot bit patterns against array semantics",
             "6/C13",
-            "Round trips through storage, lanes, insert/extract at every index, transpose4, to_scalars, little-/big-endian byte loads and stores and the array views of the storage types for every backend and vector type on every one-hot bit.",
+            "Round trips through storage, lanes, insert/extract at every index, transpose4, to_scalars, little-/big-endian byte loads and stores, the array views of the storage types and their Default / == for every backend and vector type on every one-hot bit; on the x86 machines also the impls outside the trait vocabulary while they exist (u128xN reinterpreted into the 32-/64-bit-word types, == and Default of u32x4/u64x2/x2, UnsafeFrom).",
             "values: fillers, 0, all-ones, byte-counting pattern and every one-hot bit",
             True),
     "C14": ("venum", "exploration", "bounded-exhaustive enumeration over counters at every carry position x double rounds 0..=10 x every backend, plus all refill/refill4 words up to length 4",
@@ -107,7 +107,7 @@ CHECKS = {
             True),
     "C20": ("venum", "exploration", "complete enumeration of every package's feature lattice (every subset built), plus probe fingerprints across implementation-selecting feature sets",
             "6/C20",
-            "Every subset of the declared features of each of the 9 packages is built with default features off; the probe of C03 is built with 8 (thorough: all 256) implementation-selecting feature sets and must give the reference fingerprint and report the Machine type that feature set selects; a configuration of the harness that stops building is a violation; Threefish no_unroll runs C09's domain.",
+            "Every subset of the declared features of each of the 9 packages is built with default features off; the probe of C03, extended by Groestl-224..512, is built with 9 (thorough: all 512) implementation-selecting feature sets and, with std off, for each arm of Groestl's compile-time target-feature ladder, and must give the reference fingerprint and report the Machine type that feature set selects; a configuration of the harness that stops building is a violation; Threefish no_unroll runs C09's domain.",
             "stable toolchain and x86-64 target of this sandbox; one known finding (packed_simd) is listed in KNOWN_FINDINGS.txt",
             True),
 }
